@@ -322,9 +322,9 @@ def option_jobs(rng, d, sc, f, names, trios, one, ph, feat):
         return out
     # ---- phase
     for k in range(3):
-        alg = "whatshap" if k == 0 else rng.choice(["whatshap", "heuristic", "hapchat"])
+        alg = "whatshap" if k in (0, 2) else rng.choice(["heuristic", "hapchat"])
         opts = ["--algorithm", alg, "--tag", rng.choice(["PS", "HP"])]
-        if rng.random() < 0.4:
+        if k == 2 or rng.random() < 0.3:
             opts.append("--merge-reads")
         if rng.random() < 0.3:
             opts.append("--only-snvs")
